@@ -35,9 +35,12 @@ SidesMayReset(a) == {a, [a EXCEPT !.sides = DefaultSides(a.dt)]}
 ResolveSides(a, s) == IF s = "default" THEN DefaultSides(a.dt) ELSE s
 
 \* attribute records allowed after the operation (arg: value assigned; for SetData the
-\* record [data |-> token, N |-> length])
+\* record [data |-> token, N |-> length, dt |-> datatype of the new samples])
 Succ(a, op, arg) ==
-    IF op = "SetData" THEN {[a EXCEPT !.data = arg.data, !.N = arg.N]}
+    IF op = "SetData" THEN
+        \* new samples; a datatype change (real <-> complex) may or may not reset sides at once
+        LET na == [a EXCEPT !.data = arg.data, !.N = arg.N, !.dt = arg.dt]
+        IN  IF arg.dt = a.dt THEN {na} ELSE SidesMayReset(na)
     ELSE IF op = "SetNFFT" THEN
         LET new == Resolve(arg, a.N)
         IN  IF new = a.nfft THEN {a} ELSE SidesMayReset([a EXCEPT !.nfft = new])
